@@ -60,13 +60,19 @@ W = {
     "deepgroups": 0.5,    # of the scores with groups: 3-5 parts, groups nested two deep, sibling groups
     # constructs that hit a KNOWN FINDING (kept rare; see findings.d/C03.json)
     "k_words": 0.04,      # K1: an unparsed text direction (score.Words) is not exported
-    "k_nopoint": 0.04,    # K2: divisions change inside a measure at a time without a TimePoint
+    "nopoint": 0.3,       # of the parts: voice 1 is NOT forced to start a note at a mid-measure divisions change, so the
+                          # change can fall at a time without a TimePoint (was known finding K2, repaired 83f0338)
     "k_fermata": 0.04,    # K3: fermata on the right barline of a measure that is not the last one
-    "k_wedges": 0.04,     # K4: wedges/dashes that overlap in time
+    "overlap": 0.5,       # of the parts with directions: wedges/dashes may overlap in time and nest (their numbers
+                          # must stay distinct while open, also over barlines) -- was known finding K4, repaired a5e2056
 }
 for _f in os.environ.get("VERIF_C03_OFF", "").split(","):
     if _f in W:
         W[_f] = 0.0
+
+for _kv in os.environ.get("VERIF_C03_W", "").split(","):      # VERIF_C03_W=feat=0.9,... overrides single weights
+    if "=" in _kv and _kv.split("=")[0] in W:
+        W[_kv.split("=")[0]] = float(_kv.split("=")[1])
 
 STEPS = "CDEFGAB"
 STEP_PC = {"C": 0, "D": 2, "E": 4, "F": 5, "G": 7, "A": 9, "B": 11}
@@ -232,7 +238,7 @@ def gen_part(rng, ids, pid, small=False):
     objs = part["objs"]
     t = 0
     segments = []   # (start, end, q, measure index)
-    nopoint = rng.random() < W["k_nopoint"]
+    nopoint = rng.random() < W["nopoint"]
     cur_q = None
     cur_ts = None
     number = 0
@@ -454,8 +460,8 @@ def decorate_part(rng, ids, part, segments):
                 objs.append({"k": "tuplet", "a": vn[i]["id"], "b": vn[j]["id"], "an": an, "nn": nn, "at": ty,
                              "nt": rng.choice([ty, ty, "quarter"])})
     if rng.random() < W["dirs"]:
-        ranges = []      # wedges and dashes of one part do not overlap in time (K4) ...
-        overlap_ok = rng.random() < W["k_wedges"]
+        ranges = []      # in half of the parts wedges and dashes do not overlap in time
+        overlap_ok = rng.random() < W["overlap"]
         tempos = set()
 
         def free(a, b):
@@ -557,9 +563,7 @@ def build(spec):
         present = {o["id"]: o for o in ps["objs"] if "id" in o}
 
         def chain_ok(o):
-            while o is not None and o["k"] == "grace":
-                o = present.get(o.get("next"))
-            return o is not None
+            return grace_chain_ok(o, present)
 
         for o in ps["objs"]:
             k = o["k"]
@@ -802,9 +806,17 @@ def quarter_fn(ps):
     return qf
 
 
+def grace_chain_ok(o, present):
+    """a grace note is built only when its run still leads to a main note (shrinking may have removed it)"""
+    while o is not None and o["k"] == "grace":
+        o = present.get(o.get("next"))
+    return o is not None
+
+
 def expected_sounding(ps):
     qf = quarter_fn(ps)
-    notes = {o["id"]: o for o in ps["objs"] if o["k"] in ("note", "grace", "unp")}
+    present = {o["id"]: o for o in ps["objs"] if "id" in o}
+    notes = {o["id"]: o for o in ps["objs"] if o["k"] in ("note", "grace", "unp") and grace_chain_ok(o, present)}
     nxt = {o["a"]: o["b"] for o in ps["objs"] if o["k"] == "tie" and o["a"] in notes and o["b"] in notes}
     has_prev = set(nxt.values())
     out = []
@@ -1140,6 +1152,19 @@ def signature(kind, text):
     return kind
 
 
+def struct_without(struct, i):
+    """the part list structure after removing part i (indices renumbered, emptied groups dropped)"""
+    out = []
+    for n in struct:
+        if isinstance(n, dict):
+            g = struct_without(n["g"], i)
+            if g:
+                out.append(dict(n, g=g))
+        elif n != i:
+            out.append(n - 1 if n > i else n)
+    return out
+
+
 def shrink(spec, kind, text=""):
     """ddmin over parts, then over the objects of each part, keeping a failure with the same signature."""
     sig = signature(kind, text)
@@ -1159,7 +1184,7 @@ def shrink(spec, kind, text=""):
                 break
             cand = json.loads(json.dumps(spec))
             del cand["parts"][i]
-            cand["struct"] = list(range(len(cand["parts"])))
+            cand["struct"] = struct_without(cand["struct"], i)
             if fails(cand):
                 spec = cand
     for pi in range(len(spec["parts"])):
@@ -1242,18 +1267,23 @@ def register_matchers(ctx):
     # K1: score.Words (a text direction the parser does not recognise) is never written
     ctx.matchers["C03-K1"] = lambda r: (r.get("kind") == "O2" and ".words:" in r.get("what", "") and "after load []" in r.get("what", "")
                                         and any(o["k"] == "dir" and o.get("text") == "spaghetti" for ps in spec_parts(r) for o in ps["objs"]))
-    # K2: divisions change inside a measure at a time without a TimePoint: the exporter does not split there
-    ctx.matchers["C03-K2"] = lambda r: (r.get("kind") in ("O1", "O2", "O3", "model", "O1-coq", "O1-coq-measure")
-                                        and any(nopoint_changes(ps) for ps in spec_parts(r)))
-    # K3: fermata on the right barline of a measure that is not the last: written on both sides
-    ctx.matchers["C03-K3"] = lambda r: (((r.get("kind") == "O2" and "barline_fermatas" in r.get("what", "")) or
-                                         (r.get("kind") == "O3" and "<fermata/>" in r.get("what", "")))
-                                        and any(o["k"] == "bferm" and o["ref"] == "right" and o["t"] != ps["end"]
-                                                for ps in spec_parts(r) for o in ps["objs"]))
-    # K4: wedges/dashes overlapping in time are numbered per segment (stops before starts), numbers can clash
-    ctx.matchers["C03-K4"] = lambda r: (((r.get("kind") == "O2" and ".directions:" in r.get("what", "")) or
-                                         (r.get("kind") == "O3" and ("wedge" in r.get("what", "") or "dashes" in r.get("what", ""))))
-                                        and any(overlapping_ranges(ps) for ps in spec_parts(r)))
+    # K3: fermata on the right barline of a measure that is not the last: written on both sides, so it comes back
+    # twice at its time, once as 'left' and once as 'right' (O2), and the second save writes one <fermata/> more (O3)
+
+    def k3_times(r):
+        return [o["t"] for ps in spec_parts(r) for o in ps["objs"]
+                if o["k"] == "bferm" and o["ref"] == "right" and o["t"] != ps["end"]]
+
+    def k3(r):
+        what = r.get("what", "")
+        if r.get("kind") == "O2" and ".barline_fermatas:" in what and "after load" in what:
+            after = what.split("after load", 1)[1]
+            return any("(%d, 'left')" % t in after and "(%d, 'right')" % t in after for t in k3_times(r))
+        if r.get("kind") == "O3":
+            return bool(k3_times(r)) and "+        <fermata/>" in what and "| -" not in what.split("@@", 1)[-1].replace("| -->", "")
+        return False
+
+    ctx.matchers["C03-K3"] = k3
 
 
 def simple_spec(notes, q0=4, end=16, qchanges=(), measures=None):
@@ -1267,6 +1297,11 @@ def simple_spec(notes, q0=4, end=16, qchanges=(), measures=None):
                        "poly": True, "end": end}], "struct": [0]}
 
 
+def with_objs(spec, objs):
+    spec["parts"][0]["objs"] += objs
+    return spec
+
+
 def corpus_specs():
     """witnesses of the repaired defects and the cases the property text singles out"""
     return [
@@ -1276,6 +1311,17 @@ def corpus_specs():
         simple_spec([(0, 8, 1), (0, 4, 1), (4, 8, 1), (2, 6, 1)], end=8),                          # in-voice polyphony
         simple_spec([(4, 8, 3), (12, 16, 3)]),                                                 # only voice 3, leading gap
         simple_spec([], end=16),                                                               # empty measure
+        # 83f0338: divisions change at 6, where nothing starts or ends; voice 2 has a note before it
+        simple_spec([(0, 1, 1), (0, 1, 2), (12, 16, 2)], q0=4, end=16, qchanges=[(6, 8)]),
+        # a7ec407: sustain pedal over the barline (line) and inside a measure (sign)
+        with_objs(simple_spec([(0, 16, 1), (16, 32, 1)], end=32, measures=[[0, 16, 1, "1"], [16, 32, 2, "2"]]),
+                  [{"k": "dir", "kind": "pedal", "t": 4, "e": 20, "line": True}, {"k": "dir", "kind": "pedal", "t": 24, "e": 28, "line": False}]),
+        # a5e2056: two overlapping wedges, the first crossing the barline
+        with_objs(simple_spec([(0, 16, 1), (16, 32, 1)], end=32, measures=[[0, 16, 1, "1"], [16, 32, 2, "2"]]),
+                  [{"k": "dir", "kind": "wedge_c", "t": 0, "e": 20}, {"k": "dir", "kind": "wedge_d", "t": 18, "e": 30}]),
+        # nested slurs over a barline; part groups nested two deep with a sibling after the inner group
+        with_objs(simple_spec([(0, 8, 1), (8, 16, 1), (16, 24, 1), (24, 32, 1)], end=32, measures=[[0, 16, 1, "1"], [16, 32, 2, "2"]]),
+                  [{"k": "slur", "a": "n1", "b": "n4"}, {"k": "slur", "a": "n2", "b": "n3"}]),
     ]
 
 
@@ -1299,7 +1345,7 @@ def run(ctx):
     ctx.assumptions = ["generated notes carry unique ids, positive voices and staves; no note crosses a barline or a change of divisions",
                        "voices are compared by O2 only for scores whose voices are sequential (otherwise the exporter must re-assign; the new voices are checked against the model)"]
     register_matchers(ctx)
-    ok, why = ctx.coq_props(expect_min=5)
+    ok, why = ctx.coq_props(expect_min=15)
     n_scores = 450 if ctx.tier == "quick" else 4000
     mcases, pcases = [], []
     nviol = 0
